@@ -272,7 +272,7 @@ theorem stmtQ_ifs (ifTok lp : Token) (c : PExpr) (rp : Token) (thn : SStmt) (hif
   refine Evt.of_succ f (fun g hg => ?_)
   dsimp only at hf ⊢
   rw [statement_if g h' hif, hf g hg]
-  simp [renderStmt, treeStmt, advs, adv]
+  simp [renderStmt, treeStmt, advs]
 
 theorem stmtQ_ifElse (ifTok lp : Token) (c : PExpr) (rp : Token) (thn : SStmt) (et : Token) (els : SStmt)
     (hif : ifTok.tt = .if_) (hlp : lp.tt = .leftParen) (hc : c.OK) (hrp : rp.tt = .rightParen)
@@ -298,7 +298,7 @@ theorem stmtQ_ifElse (ifTok lp : Token) (c : PExpr) (rp : Token) (thn : SStmt) (
   refine Evt.of_succ f (fun g hg => ?_)
   dsimp only at hf ⊢
   rw [statement_if g h' hif, hf g hg]
-  simp [renderStmt, treeStmt, advs, adv]
+  simp [renderStmt, treeStmt, advs]
 
 theorem stmtQ_repeatTimes (rt : Token) (c : PExpr) (tt : Token) (body : SStmt) (hrt : rt.tt = .repeat_)
     (hc : c.OK) (htt : tt.tt = .times) (hb : body.isBlock = true) (hbody : StmtAcc body) :
@@ -318,7 +318,7 @@ theorem stmtQ_repeatTimes (rt : Token) (c : PExpr) (tt : Token) (body : SStmt) (
   refine Evt.of_succ f (fun g hg => ?_)
   dsimp only at hf ⊢
   rw [statement_repeat_times g h' hrt hkw.2.2.2.2.2.2, hf g hg]
-  simp [restoreLoop, renderStmt, treeStmt, advs, adv]
+  simp [restoreLoop, renderStmt, treeStmt, advs]
 
 theorem stmtQ_repeatUntil (rt ut lp : Token) (c : PExpr) (rp : Token) (body : SStmt) (hrt : rt.tt = .repeat_)
     (hut : ut.tt = .until_) (hlp : lp.tt = .leftParen) (hc : c.OK) (hrp : rp.tt = .rightParen)
@@ -336,7 +336,7 @@ theorem stmtQ_repeatUntil (rt ut lp : Token) (c : PExpr) (rp : Token) (body : SS
   refine Evt.of_succ f (fun g hg => ?_)
   dsimp only at hf ⊢
   rw [statement_repeat_until g h' hrt hut, hf g hg]
-  simp [restoreLoop, renderStmt, treeStmt, advs, adv]
+  simp [restoreLoop, renderStmt, treeStmt, advs]
 
 theorem block_first {st : SStmt} (hb : st.isBlock = true) (hs : st.Syn) :
     ∃ lb r, renderStmt st = lb :: r ∧ lb.tt = .leftBrace := by
@@ -362,7 +362,7 @@ theorem stmtQ_forEach (ft et it int : Token) (l : PExpr) (body : SStmt) (hft : f
   refine Evt.of_succ f (fun g hg => ?_)
   dsimp only at hf ⊢
   rw [statement_for g h' hft, hf g hg]
-  simp [restoreLoop, renderStmt, treeStmt, advs, adv, hlb0]
+  simp [restoreLoop, renderStmt, treeStmt, advs, hlb0]
 
 theorem stmtQ_block (lb : Token) (q : SSeq) (rb : Token) (hlb : lb.tt = .leftBrace) (hrb : rb.tt = .rightBrace)
     (hq : SeqAcc q) : StmtAcc (.block lb q rb) := by
@@ -387,14 +387,14 @@ theorem stmtQ_ret (tok : Token) (v : Option PExpr) (term : Option Token) (htok :
     refine Evt.of_succ 0 (fun g _ => ?_)
     rw [statement_return g h' htok,
       returnStatement_none_ev g (s := adv s tok _) (term := term) (rest := rest) hfn rfl hterm hcl]
-    simp [renderStmt, treeStmt, optToks, advs, adv]
+    simp [renderStmt, treeStmt, optToks, advs]
   | some e =>
     have h' : s.after = tok :: (e.toks ++ (term.toList ++ rest)) := by simpa [renderStmt, optToks] using h
     obtain ⟨f, hf⟩ := returnStatement_some_ev (tok := tok) (s := adv s tok _) hfn (hv e rfl) rfl hterm hcl
     refine Evt.of_succ f (fun g hg => ?_)
     dsimp only at hf ⊢
     rw [statement_return g h' htok, hf g hg]
-    simp [renderStmt, treeStmt, optToks, advs, adv]
+    simp [renderStmt, treeStmt, optToks, advs]
 
 theorem stmtQ_cont (tok : Token) (htok : tok.tt = .continue_) : StmtAcc (.cont tok) := by
   intro s rest h _ hw
@@ -419,7 +419,7 @@ theorem stmtQ_importAll (it mt mn : Token) (term : Option Token) (hit : it.tt = 
   have h' : s.after = it :: (mt :: mn :: (term.toList ++ rest)) := by simpa [renderStmt] using h
   refine Evt.of_succ 0 (fun g _ => ?_)
   rw [statement_import g h' hit, importStatement_all_ev g (s := adv s it _) rfl hmt hmn hterm hcl]
-  simp [renderStmt, treeStmt, advs, adv]
+  simp [renderStmt, treeStmt, advs]
 
 theorem stmtQ_importOne (it n ft mt mn : Token) (term : Option Token) (hit : it.tt = .import_)
     (hn : n.tt = .stringLiteral) (hft : ft.tt = .from_) (hmt : mt.tt = .mod_) (hmn : mn.tt = .stringLiteral)
@@ -429,7 +429,7 @@ theorem stmtQ_importOne (it n ft mt mn : Token) (term : Option Token) (hit : it.
   have h' : s.after = it :: (n :: ft :: mt :: mn :: (term.toList ++ rest)) := by simpa [renderStmt] using h
   refine Evt.of_succ 0 (fun g _ => ?_)
   rw [statement_import g h' hit, importStatement_one_ev g (s := adv s it _) rfl hn hft hmt hmn hterm hcl]
-  simp [renderStmt, treeStmt, advs, adv]
+  simp [renderStmt, treeStmt, advs]
 
 theorem stmtQ_importList (it lb : Token) (ns : SepList) (rb ft mt mn : Token) (term : Option Token)
     (hit : it.tt = .import_) (hlb : lb.tt = .leftBracket) (hns : ns.OK .stringLiteral)
@@ -443,7 +443,7 @@ theorem stmtQ_importList (it lb : Token) (ns : SepList) (rb ft mt mn : Token) (t
   refine Evt.of_succ f (fun g hg => ?_)
   dsimp only at hf ⊢
   rw [statement_import g h' hit, hf g hg]
-  simp [renderStmt, treeStmt, advs, adv]
+  simp [renderStmt, treeStmt, advs]
 
 theorem declQ_procDecl (ex : Option Token) (pt nt lp : Token) (ps : Option SepList) (rp : Token) (body : SStmt)
     (hex : ∀ t, ex = some t → t.tt = .export_) (hpt : pt.tt = .procedure) (hnt : nt.tt = .identifier)
@@ -465,7 +465,7 @@ theorem declQ_procDecl (ex : Option Token) (pt nt lp : Token) (ps : Option SepLi
     obtain ⟨g, rfl⟩ : ∃ g', g = g' + 1 := ⟨g - 1, by omega⟩
     dsimp only at hf ⊢
     rw [declaration_proc (g+1) h' (Or.inr hpt), procedure_plain g _ hpt, hf g (by omega)]
-    simp [renderStmt, treeStmt, advs, adv]
+    simp [renderStmt, treeStmt, advs]
   | some et =>
     have het := hex et rfl
     have h' : s.after = et :: (pt :: (nt :: lp :: (SepList.toksO ps ++ rp :: (renderStmt body ++ nxt :: r3)))) := by
@@ -479,7 +479,7 @@ theorem declQ_procDecl (ex : Option Token) (pt nt lp : Token) (ps : Option SepLi
     obtain ⟨g, rfl⟩ : ∃ g', g = g' + 1 := ⟨g - 1, by omega⟩
     dsimp only at hf ⊢
     rw [declaration_proc (g+1) h' (Or.inl het), procedure_export g (s := adv s et _) het rfl hpt, hf g (by omega)]
-    simp [renderStmt, treeStmt, advs, adv]
+    simp [renderStmt, treeStmt, advs]
 
 /-! ## sequences -/
 
@@ -516,7 +516,7 @@ theorem seqQ_semi (t : Token) (r : SSeq) (ht : t.tt = .softSemi) (hr : SeqAcc r)
   refine Evt.of_succ f (fun g hg => ?_)
   dsimp only at hf ⊢
   rw [blockLoop_semi g acc h' ht, hf g hg]
-  simp [renderSeq, treeSeq, advs, adv]
+  simp [renderSeq, treeSeq, advs]
 
 theorem seqQ_cons (st : SStmt) (r : SSeq) (hst : st.Syn) (hbare : st.bare = true → r.isNil = true) (hsr : r.Syn)
     (hd : DeclAcc st) (hr : SeqAcc r) : SeqAcc (.cons st r) := by
